@@ -6,6 +6,7 @@
   Proofs/MuxTLemmas, Proofs/TransportLemmas); this file only states the theorems.
 
   Quantification: every operation list (open / request / outcome of each blocking I/O call /
+  several reads of the mux receive loop returning without a yield in between, `burst` /
   timeout with the outcome of the re-connect / ping due / ping silence / close), of any
   length, subject only to the hypotheses `comp.wf` spells out (an I/O outcome needs a greenlet
   blocked in that I/O call; request ids are fresh; for the mux transport see Adapter/MuxT.lean).
@@ -87,12 +88,14 @@ theorem C08_serial_model_satisfies_spec (ops : List Serial.Op) (h : Serial.comp.
 /-! ## ThriftMux transport (scales/mux/sink.py, scales/thriftmux/sink.py) -/
 
 /-- the invariant (a closed transport has no live loop and no ping helper; only an Open
-    transport has requests in its tag map) holds in every reachable state -/
+    transport has requests in its tag map; between two operations no `_ProcessReply` greenlet
+    is pending) holds in every reachable state -/
 theorem C08_mux_inv_reachable (ops : List MuxT.Op) : MuxT.Inv (MuxT.runOps MuxT.St.init ops) :=
   MuxT.inv_reachable ops
 
 /-- on a connection failure (refused connect, write error, read error or end-of-stream in a
-    header or a body, ping silence) every request in the tag map — queued, being written or
+    header or a body — alone or right behind frames read in the same burst —, ping silence)
+    every request in the tag map — queued, being written or
     awaiting its reply — is handed exactly one `ClientError`, in tag-map order, nothing else is
     handed out, and the tag map and the send queue are empty afterwards. -/
 theorem C08_mux_shutdown_fails_all_once (s : MuxT.St) (op : MuxT.Op) (hinv : MuxT.Inv s)
@@ -105,6 +108,41 @@ theorem C08_mux_shutdown_fails_all_once (s : MuxT.St) (op : MuxT.Op) (hinv : Mux
 theorem C08_mux_responses_at_most_once (ops : List MuxT.Op) (h : MuxT.comp.wf () ops = true)
     (id : Nat) : MuxT.responsesTo id (MuxT.comp.modelTrace () ops) ≤ 1 :=
   MuxT.responses_at_most_once ops h id
+
+/-- a `_ProcessReply` greenlet that was spawned before `_Shutdown` and runs after it (its frame
+    had been read, the next read failed before the receive loop yielded) finds an empty tag map
+    and no outstanding ping: whatever the frames, nothing is handed to any request and the
+    closed transport does not change.  `Inv0` is `Inv` without "nothing pending". -/
+theorem C08_mux_reply_after_shutdown_dropped (s : MuxT.St) (fs : List MuxT.Frame)
+    (hinv : MuxT.Inv0 s) (hc : s.cstate = .closed) : MuxT.dispatchGo fs s = (s, []) :=
+  MuxT.reply_after_shutdown_dropped s fs hinv hc
+
+/-- frames and a failing read (error or end-of-stream, in a header or a body) right behind
+    them, without a yield in between: every request in the tag map is handed exactly one
+    `ClientError` — also one whose reply was among the frames read — and nothing else is handed
+    out; the fault signal is raised once, the transport is closed, the tag map is empty and no
+    `_ProcessReply` greenlet is left behind. -/
+theorem C08_mux_burst_fault_once (s : MuxT.St) (rs : List (IOOut × MuxT.Frame)) (hinv : MuxT.Inv s)
+    (hrl : s.rl ≠ .dead) (hex : ∃ r ∈ rs, r.1 ≠ IOOut.ok) :
+    (MuxT.stepOut s (.burst rs)).2.eff.dels = s.tagMap.map (fun p => (p.2, Resp.cerr)) ∧
+    (MuxT.stepOut s (.burst rs)).2.eff.faults = 1 ∧
+    (MuxT.stepOut s (.burst rs)).1.cstate = .closed ∧ (MuxT.stepOut s (.burst rs)).1.tagMap = [] ∧
+    (MuxT.stepOut s (.burst rs)).1.pending = [] :=
+  MuxT.burst_fault_once s rs hinv hrl hex
+
+/-- **each in-flight request is completed exactly once, over whole histories.**  Whatever
+    happened before and whatever happens afterwards (replies for its tag arriving late
+    included): a request that is in the tag map when the connection fails is handed a
+    `ClientError` in that very operation, and that is the only response it is handed in the
+    whole history.  (With `C08_mux_responses_at_most_once`: a request is completed by its reply
+    or by one error, never both.) -/
+theorem C08_mux_inflight_failed_exactly_once (pre : List MuxT.Op) (op : MuxT.Op) (post : List MuxT.Op)
+    (h : MuxT.comp.wf () (pre ++ op :: post) = true)
+    (hf : MuxT.connFailure (MuxT.runOps MuxT.St.init pre) op = true) (tag id : Nat)
+    (hin : (tag, id) ∈ (MuxT.runOps MuxT.St.init pre).tagMap) :
+    (id, Resp.cerr) ∈ (MuxT.stepOut (MuxT.runOps MuxT.St.init pre) op).2.eff.dels ∧
+    MuxT.responsesTo id (MuxT.comp.modelTrace () (pre ++ op :: post)) = 1 :=
+  MuxT.inflight_failed_exactly_once pre op post h hf tag id hin
 
 /-- after a connection failure the transport reports `closed`, the fault signal was raised
     exactly once, both loops, the ping loop and the ping helper are gone, and an open that was
@@ -185,6 +223,21 @@ example : (stepOut (runOps St.init [.openT .ok, .wr .ok, .rd .ok .junk, .rd .ok 
     = { faults := 1, dels := [(1, .cerr), (2, .cerr), (3, .cerr)] } := by decide
 example : connFailure (runOps St.init [.openT .ok, .wr .ok, .rd .ok .junk, .rd .ok .rping, .req 1 2, .pingDue])
     .pingSilence = true := by decide
+-- the reply to request 1 and the end of the stream arrive together: both requests get one error
+example : comp.wf () [.openT .ok, .wr .ok, .rd .ok .junk, .rd .ok .rping, .req 1 2, .req 2 3, .wr .ok, .wr .ok,
+    .burst [(.ok, .junk), (.ok, .reply 2), (.eof, .junk)], .look, .req 3 0] = true := by decide
+example : (stepOut (runOps St.init [.openT .ok, .wr .ok, .rd .ok .junk, .rd .ok .rping, .req 1 2, .req 2 3,
+    .wr .ok, .wr .ok]) (.burst [(.ok, .junk), (.ok, .reply 2), (.eof, .junk)])).2.eff
+    = { faults := 1, dels := [(1, .cerr), (2, .cerr)] } := by decide
+example : connFailure (runOps St.init [.openT .ok, .wr .ok, .rd .ok .junk, .rd .ok .rping, .req 1 2, .req 2 3,
+    .wr .ok, .wr .ok]) (.burst [(.ok, .junk), (.ok, .reply 2), (.raise, .junk)]) = true := by decide
+-- two replies in one burst without a fault: both are dispatched
+example : (stepOut (runOps St.init [.openT .ok, .wr .ok, .rd .ok .junk, .rd .ok .rping, .req 1 2, .req 2 3,
+    .wr .ok, .wr .ok]) (.burst [(.ok, .junk), (.ok, .reply 3), (.ok, .junk), (.ok, .reply 2)])).2.eff
+    = { dels := [(2, .stream), (1, .stream)] } := by decide
+-- the Rping of the opening handshake with the end of the stream right behind it: the open fails
+example : (runOps St.init [.openT .ok, .wr .ok, .burst [(.ok, .junk), (.ok, .rping), (.eof, .junk)]]).cstate
+    = .closed := by decide
 end
 
 end Scales.C08
